@@ -43,7 +43,20 @@ let check (b : block) : verdict list =
      | Some [nv] when int_of_string nv <> n ->
        add (Viol ("load:feature-count", Printf.sprintf "loaded with n=%d but number_of_variables=%s" n nv))
      | _ -> ());
+    (* d4 files: the file-level predicate of theorem C01_d4_loader_wf; a conforming file whose
+       loaded vector fails check_wf contradicts the theorem *)
+    let conform =
+      match List.assoc_opt "d4" b.files with
+      | Some lines when n <= 2000 ->
+        (match Mdl.LoadD4.lex_lines_d4 (List.map Conv.coq_string lines) with
+         | Some toks -> Some (Mdl.D4Conform.d4_conform toks (Conv.nat_of_int n))
+         | None -> None)
+      | _ -> None in
+    (match conform with
+     | Some true -> bump "d4_conform_yes" | Some false -> bump "d4_conform_no" | None -> ());
     let wf = Model.check_wf c (Conv.nat_of_int n) in
+    if conform = Some true && not wf then
+      add (Viol ("conform:not-wf", "d4_conform accepts the file but check_wf rejects the loaded vector"));
     if not wf then begin
       let parts = [ "idx_ok", Model.idx_ok c; "decomposable", Model.decomposable c;
                     "smooth", Model.smooth c; "complete", Model.complete c (Conv.nat_of_int n);
